@@ -8,8 +8,10 @@ import Umya.Model.Reader
   `Umya.Spec.Xml`), `c03 decode` answers with the violations found by the independent decoder and
   the canonical view of what the file means (cells with value / kind / formula incl. expanded shared
   formulas, numbers as binary64 bit patterns, style facts through cellXfs, columns, rows, links,
-  tables, defined names).  `c03 cell …` / `c03 attr …` / `c03 cols …` run the model of the library's
-  reader (`Umya.Model.Reader`) next to the spec on one element.
+  tables, defined names).  On `decode` the model of the library's cell reader and of its position rule
+  (`Umya.Model.Reader`: `readCell`, `sheetPositions`) is run next to the spec on every `<c>` / every
+  `<sheetData>` of the file (`model-vs-spec-cells`, `model-vs-spec-positions` after ` ## `; a position
+  difference on a file the spec accepts also shows as `modelpos=` in the compared part).
 -/
 namespace Umya.Driver.C03
 open Umya.Spec.Xml Umya.Spec.Sml Umya.Proto
@@ -122,6 +124,33 @@ def modelVsSpec (parts : List Part) : Nat × Nat :=
       !(mk = sk ∧ r.raw.text = s.value ∧ r.formula = s.formula)
   (bad.length, cells.length)
 
+/-- the model of the library's position rule (`Umya.Reader.sheetPositions`: rows / cells without `r`
+    follow the one before) run next to the spec's (`specPositions`: `rowNumbers` / `fillRefs`) on the
+    `<sheetData>` of every worksheet part, in the order of the parts:
+    (worksheets where they differ or the model panics — with the first row that differs —, worksheets,
+     rows, cells, rows without `r`, cells without `r`) -/
+def posStr (ps : List (Nat × Nat)) : String := " ".intercalate (ps.map fun p => s!"{p.1}.{p.2}")
+
+def modelVsSpecPositions (parts : List Part) : List String × Nat × Nat × Nat × Nat × Nat :=
+  let sheets := parts.filterMap fun p => match p.xml with
+    | some r => if localName r.name = "worksheet".toList then some (p.name, r) else none
+    | none => none
+  let per := sheets.map fun ((name, ws) : String × Node) =>
+    let rows : List Node := ((ws.kid? "sheetData").map (fun (d : Node) => d.kids "row")).getD []
+    let spec : List (Nat × List (Nat × Nat)) := specPositions [] 0 rows
+    let diff : Option String := match Umya.Reader.sheetPositions 0 rows with
+      | none => some s!"{name}: the model panics"
+      | some m =>
+        if m = spec then none
+        else match (m.zip spec).find? (fun (p : (Nat × List (Nat × Nat)) × (Nat × List (Nat × Nat))) => p.1 != p.2) with
+          | some (a, b) => some s!"{name}: row model {a.1} [{posStr a.2}] spec {b.1} [{posStr b.2}]"
+          | none => some s!"{name}: {m.length} rows in the model, {spec.length} in the spec"
+    let cells : List Node := rows.flatMap (fun (r : Node) => r.kids "c")
+    (diff, rows.length, cells.length, (rows.filter fun (r : Node) => (r.attr? "r".toList).isNone).length,
+      (cells.filter fun (c : Node) => (c.attr? "r".toList).isNone).length)
+  (per.filterMap (·.1), sheets.length, (per.map (·.2.1)).sum, (per.map (·.2.2.1)).sum, (per.map (·.2.2.2.1)).sum,
+    (per.map (·.2.2.2.2)).sum)
+
 def handle (st : St) (args : List String) : St × String :=
   match args with
   | "reset" :: _ => ({}, "ok")
@@ -145,7 +174,13 @@ def handle (st : St) (args : List String) : St × String :=
       | some b => (b.sheets.zipIdx.filterMap fun (s, i) => if s.noR then some s!"no-r:{i}" else none)
       | none => []
     let (bad, n) := modelVsSpec st.parts
-    (st, s!"errs={errs.length};{" | ".intercalate (errs.take 5)};view={v} ## model-vs-spec-cells={bad}/{n} {" ".intercalate notes}")
+    let (pdiff, nws, nrows, ncells, rowsNoR, cellsNoR) := modelVsSpecPositions st.parts
+    -- a file the spec accepts on which the MODEL of the position rule differs from the spec is not
+    -- below the abstraction: the field `modelpos=` makes the reply differ from the implementation's, and
+    -- the classifier reports it (the implementation is compared with the spec through the view, so the
+    -- three agree pairwise on every file that passes)
+    let mp := if errs.isEmpty ∧ !pdiff.isEmpty then s!";modelpos={" / ".intercalate (pdiff.take 3)}" else ""
+    (st, s!"errs={errs.length};{" | ".intercalate (errs.take 5)}{mp};view={v} ## model-vs-spec-cells={bad}/{n} model-vs-spec-positions={pdiff.length}/{nws} rows={nrows} cells={ncells} rows-no-r={rowsNoR} cells-no-r={cellsNoR} {" ".intercalate notes}")
   | _ => (st, "bad-op")
 
 end Umya.Driver.C03
